@@ -15,7 +15,7 @@ import asyncio
 import itertools
 from contextlib import contextmanager
 
-from buses import HeldBus, PrefixChooser, RealInternalBus, SeededChooser, SyncBus, Trace
+from buses import HeldBus, KafkaFakeBus, PrefixChooser, RealInternalBus, SeededChooser, SyncBus, Trace
 from vloop import run_virtual
 
 
@@ -351,6 +351,8 @@ def run_scenario(scn, *, bus="sync", chooser=None, seed=0, max_steps=None, use_s
             b = SyncBus(trace, loop)
         elif bus == "internal":
             b = RealInternalBus(trace, loop)
+        elif bus == "kafka":
+            b = KafkaFakeBus(trace, chooser or SeededChooser(seed), loop)
         else:
             b = HeldBus(trace, chooser or SeededChooser(seed), loop)
             b.start()
